@@ -589,6 +589,23 @@ func runOps(kind string, c *OpsCase, ft *feat) *report.Failure {
 	var add func(a *OpsAction) (string, error)
 	var all func() []string
 	var addName string
+	// slices handed out by All() are the caller's: after a LATER add the harness overwrites every element of
+	// their backing arrays up to capacity (what a caller appending to / sorting its result does). If the pool
+	// handed out its own storage, the next All() shows it ("every item returned is one that was added, unaltered").
+	var held []any
+	scribbleHeld := func() {
+		for _, h := range held {
+			rv := reflect.ValueOf(h)
+			if rv.Kind() != reflect.Slice || rv.Cap() == 0 {
+				continue
+			}
+			full := rv.Slice3(0, rv.Cap(), rv.Cap())
+			for i := 0; i < full.Len(); i++ {
+				full.Index(i).Set(reflect.Zero(full.Type().Elem()))
+			}
+		}
+		held = nil
+	}
 	var f0 *report.Failure
 	switch kind {
 	case "exit":
@@ -602,9 +619,11 @@ func runOps(kind string, c *OpsCase, ft *feat) *report.Failure {
 			return id, err
 		}
 		all = func() (out []string) {
-			for _, x := range p.All() {
+			raw := p.All()
+			for _, x := range raw {
 				out = append(out, jsonID(x))
 			}
+			held = append(held, raw)
 			return
 		}
 	case "propslash":
@@ -618,9 +637,11 @@ func runOps(kind string, c *OpsCase, ft *feat) *report.Failure {
 			return id, err
 		}
 		all = func() (out []string) {
-			for _, x := range p.All() {
+			raw := p.All()
+			for _, x := range raw {
 				out = append(out, jsonID(x))
 			}
+			held = append(held, raw)
 			return
 		}
 	case "attslash":
@@ -634,9 +655,11 @@ func runOps(kind string, c *OpsCase, ft *feat) *report.Failure {
 			return id, err
 		}
 		all = func() (out []string) {
-			for _, x := range p.All() {
+			raw := p.All()
+			for _, x := range raw {
 				out = append(out, jsonID(x))
 			}
+			held = append(held, raw)
 			return
 		}
 	}
@@ -663,6 +686,7 @@ func runOps(kind string, c *OpsCase, ft *feat) *report.Failure {
 			if f := guard(addName, func() { id, err = add(a) }); f != nil {
 				return at(i, what, f)
 			}
+			scribbleHeld()
 			key := fmt.Sprint(a.Val)
 			mkey := key // the key the documented refusal is about
 			if kind == "attslash" {
